@@ -26,8 +26,8 @@ EXTENDS SaslChoice, Integers, Json, CSV, IOUtils
 
 TraceLog == ndJsonDeserialize(IOEnv.QXV_TRACE)
 
-VARIABLES l, viol, ndiv, divs, ncases, nobs, nsent
-tvars == <<vars, l, viol, ndiv, divs, ncases, nobs, nsent>>
+VARIABLES l, viol, ndiv, divs, ncases, nobs, nsent, dist
+tvars == <<vars, l, viol, ndiv, divs, ncases, nobs, nsent, dist>>
 
 SeqRange(s) == {s[i] : i \in DOMAIN s}
 
@@ -37,11 +37,16 @@ Conv(j) == [v |-> j.v, offered |-> SeqRange(j.offered), fastFeature |-> j.fastFe
             creds |-> [pw |-> j.creds.pw, token |-> j.creds.token, google |-> j.creds.google,
                        wlive |-> j.creds.wlive, fb |-> j.creds.fb]]
 
+\* vacuity guard: how the model's choice is distributed over the validated cases
+OutcomeKinds == {"none", "preferred", "ht", "scram", "digest", "plain", "anonymous", "xgoogle", "xwlive", "xfacebook"}
+OutcomeKind(k, C, ch) == IF ch = None THEN "none" ELSE IF k.preferred \in C THEN "preferred" ELSE Table[ch].fam
+
 TInit ==
     /\ c = [v |-> 1, offered |-> {}, fastFeature |-> FALSE, fastMechs |-> {}, useFast |-> TRUE, userAgent |-> TRUE,
             disabled |-> {}, preferred |-> "", creds |-> [pw |-> FALSE, token |-> "", google |-> FALSE, wlive |-> FALSE, fb |-> FALSE]]
     /\ phase = "offered" /\ out = None /\ sent = 0 /\ hist = <<>>
     /\ l = 1 /\ viol = {} /\ ndiv = 0 /\ divs = <<>> /\ ncases = 0 /\ nobs = 0 /\ nsent = 0
+    /\ dist = [x \in OutcomeKinds |-> 0]
 
 \* "reports a mechanism mismatch": the error type is part of the observation
 P_ReportsMismatch(o) == o.m = None => o.err = "MechanismMismatch"
@@ -71,17 +76,18 @@ CaseStep(ev) ==
     /\ ncases' = ncases + 1
     /\ nobs' = nobs + Len(ev.o)
     /\ nsent' = nsent + (IF ch = None THEN 0 ELSE 1)
+    /\ dist' = [dist EXCEPT ![OutcomeKind(k, C, ch)] = @ + 1]
 
 TNext ==
     /\ l <= Len(TraceLog)
     /\ l' = l + 1
     /\ LET ev == TraceLog[l] IN
         IF ev.e = "Authenticate" THEN CaseStep(ev)
-        ELSE UNCHANGED <<vars, viol, ndiv, divs, ncases, nobs, nsent>>
+        ELSE UNCHANGED <<vars, viol, ndiv, divs, ncases, nobs, nsent, dist>>
 
 TSpec == TInit /\ [][TNext]_tvars
 
 Summary == [cases |-> ncases, lines |-> l - 1, observations |-> nobs, nonempty |-> nsent,
-            viol |-> viol, ndiv |-> ndiv, divs |-> divs]
+            viol |-> viol, ndiv |-> ndiv, divs |-> divs, dist |-> dist]
 Done == l <= Len(TraceLog) \/ CSVWrite("%1$s", <<ToJson(Summary)>>, IOEnv.QXV_SUMMARY)
 =============================================================================
